@@ -167,7 +167,22 @@ def c17(tier, seed):
     return wx_runs(tier, "C17")
 
 
+def c16(tier, seed):
+    cfgs = ["d", "c", "p", "r", "f", "rf", "crf", "nd"]
+    if tier == "thorough":
+        # the whole lattice {std} x {compact} x {-, power-of-two, radix} x {format}
+        cfgs = []
+        for n in ("", "n"):
+            for c in ("", "c"):
+                for r in ("", "p", "r"):
+                    for f in ("", "f"):
+                        body = c + r + f
+                        cfgs.append(n + (body if body else "d"))
+    return [run(c, "rel", "c16") for c in cfgs] + [run("d", "dbg", "c16", tag="dbg"), run("crf", "dbg", "c16", tag="dbg")]
+
+
 PLANS = {
+    "C16": c16,
     "C08": c08,
     "C09": c09,
     "C14": c14,
@@ -291,6 +306,16 @@ META = {
         "lexical_core functions (value bits, count, error) for f64, f32, i64, u8, i128, usize on a hostile corpus (seed literals with spliced bytes).",
         "assumptions": [],
     },
+    "C16": {
+        "rule": "one fixed seeded workload for the default (decimal, STANDARD) API, identical source and inputs in every build configuration (quick: d, c, p, r, f, rf, crf, no-std d, + debug-assertion builds of d and crf; "
+        "thorough: all 24 members of {std} x {compact} x {-, power-of-two, radix} x {format}): parse and parse_partial of f64/f32 on the halfway/tie/limit families of every 3rd (thorough: every) binade, the structure family "
+        "(zero runs, exponent sweeps, fast-path limits), every 1-2 byte string over a 19-symbol alphabet, spliced special-string / numeral seeds for all 14 types, numerals around every integer type's limits (+-2, extra digit, "
+        "leading zeros, junk, truncations); write of boundary + random values of all 12 integer types and of writer-directed f64/f32 values incl. NaN/inf. Every call/return event is rendered as a text record (value bits, count, "
+        "error kind and index, output bytes) and hashed into per-(stream, lane, 2048-event chunk) digests; ./check compares the digests of all configurations (parse results and integer output: all equal; float output bytes: "
+        "equal among non-compact builds; float output read back by core::str::parse: equal among all builds) and resolves every differing chunk to the individual events by re-running it in both builds. "
+        "distinct_nontrivial = events whose result is an error, or whose input has > 19 bytes, plus all write events, in ONE configuration (the workload is the same in all).",
+        "assumptions": ["the build whose digest is in the minority is named as the deviating one (majority attribution); panics are compared as 'Panic' without the message"],
+    },
     "C10": {
         "rule": PX_RULE + " Judged: no panic (release and debug-assertion builds), no guard-page hit, partial count <= len, error index <= len.",
         "assumptions": ["a guard page catches out-of-slice access only within one page of the slice; intra-allocation misuse is left to Miri (thorough tier)"],
@@ -382,5 +407,5 @@ def replay_auto(body):
     return replay_wx(body) if body["run"]["bin"].startswith("wx_") else replay_px(body)
 
 
-REPLAY = {"C08": replay_wx, "C09": replay_wx, "C14": replay_wx, "C17": replay_wx, "C10": replay_px, "C11": replay_px, "C12": replay_px, "C13": replay_px, "C15": replay_auto, "C06": replay_c06, "C07": replay_c06, "C05": replay_c05, "C04": replay_c04, "C01": replay_input, "C02": replay_bits, "C03": replay_c03}
+REPLAY = {"C16": (lambda body: ["dump=" + body["case"]["chunk"]]), "C08": replay_wx, "C09": replay_wx, "C14": replay_wx, "C17": replay_wx, "C10": replay_px, "C11": replay_px, "C12": replay_px, "C13": replay_px, "C15": replay_auto, "C06": replay_c06, "C07": replay_c06, "C05": replay_c05, "C04": replay_c04, "C01": replay_input, "C02": replay_bits, "C03": replay_c03}
 POST = {}
